@@ -60,7 +60,15 @@ def main():
     ctx.assumptions = list(COMMON_ASSUMPTIONS)
     ctx.root = root
     level = getattr(mod, 'LEVEL', 'other')
-    proof = mod.run(ctx) or None
+    try:
+        proof = mod.run(ctx) or None
+    except Exception as e:     # fail closed: an engine error on an unforeseen shape is reported as a finding, never a silent pass or a bare crash
+        import traceback
+        tb = traceback.extract_tb(e.__traceback__)
+        where = '%s:%d' % (os.path.basename(tb[-1].filename), tb[-1].lineno) if tb else '?'
+        proof = None
+        ctx.fail('engine|%s|analysis-error' % prop, 'the analysis could not handle a construct of the analysed tree (%s: %s at %s); the rule fails closed - '
+                 'the property is NOT shown for this tree' % (type(e).__name__, str(e)[:160], where))
     if tier == 'thorough' and not replay:
         import controls
         nfix, failed = controls.run_fixture_controls(ctx)
